@@ -20,7 +20,8 @@ RULE = ('2..7 byte ranges are placed relative to each other with a drawn relatio
         'iff two ranges of positive length intersect, otherwise accepted with the reference image. Non-trivial = at '
         'least two positive-length ranges that are not far apart, or a zero-length line touching a range. Distinct = '
         'SHA-1 of the case JSON.')
-ASSUMPTIONS = ['no muted lines (whether a muted line occupies its addresses is not stated)']
+ASSUMPTIONS = ['a muted line is a byte-producing line: it keeps its addresses and collides like any other, it is only absent '
+               'from the image (the literal reading of the property; the tree agrees)']
 BUDGET = {'quick': 3200, 'thorough': 200000}
 LEVEL_TEXT = ('Exploration over the family of relative positions and source orders of ranges, with the relation drawn '
               'explicitly so that touching (must pass) and one-byte overlap (must fail) occur in every run.')
@@ -85,6 +86,7 @@ def _cases(draw, tier):
         zones.update(tailored)
     pieces = []
     blocks = []
+    nmuted = 0
     for idx, (s, ln, rel) in enumerate(ranges):
         kind = draw(st.sampled_from(['byte', 'byte', 'fill', 'zero', 'jmp', 'block', '2byte']))
         org = {'t': 'org', 'e': isagen._lit(s, draw)}
@@ -107,7 +109,12 @@ def _cases(draw, tier):
             item = {'t': 'data', 'd': '.2byte', 'vals': [['num', draw(st.integers(0, 65535)), 'hex$'] for _ in range(ln // 2)]}
         else:
             item = {'t': 'data', 'd': '.byte', 'vals': [['num', draw(st.integers(0, 255)), 'hex$'] for _ in range(ln)]}
-        pieces.append([org, item])
+        if draw(st.integers(0, 4)) == 0:
+            # a muted line keeps its addresses (it is only absent from the image): it collides like any other
+            pieces.append([org, {'t': 'mute', 'kw': 'mute'}, item, {'t': 'unmute', 'kw': draw(st.sampled_from(['unmute', 'emit']))}])
+            nmuted += 1
+        else:
+            pieces.append([org, item])
     nzero = draw(st.sampled_from([0, 0, 1, 2]))
     for _ in range(nzero):
         rs, rl, _ = draw(st.sampled_from(ranges))
@@ -130,7 +137,7 @@ def _cases(draw, tier):
     if blocks:
         cfg.setdefault('predefined', {})['data'] = blocks
     return {'isa': cfg, 'items': items, 'lo': lo, 'relations': [r[2] for r in ranges], 'nzero': nzero,
-            'fill': draw(st.sampled_from([0, 0xEE])), 'tailored_zones': len(tailored),
+            'fill': draw(st.sampled_from([0, 0xEE])), 'tailored_zones': len(tailored), 'nmuted': nmuted,
             'mode': draw(st.sampled_from(['binary', 'binary', 'no-binary']))}
 
 
@@ -145,8 +152,9 @@ def execute(case, ctx):
         cfg, isa, fname, files, verdict, lay = run_layout_case(ID, case)
         if verdict == 'accepted':
             if not lay.memory:
-                return Outcome(classes=['no-bytes'], evals=0)
-            lo, hi = min(lay.memory), max(lay.memory)
+                lo, hi = case['lo'], case['lo'] + 8       # everything muted: an explicit window of fill
+            else:
+                lo, hi = min(lay.memory), max(lay.memory)
             want = lay.image(lo, hi, case['fill'])
         else:
             lo, hi, want = case['lo'], case['lo'] + 8, None
@@ -183,6 +191,6 @@ def execute(case, ctx):
     nt = bool(rels - {'first', 'far'}) or case['nzero'] > 0
     classes = ['model:' + ('overlap' if overlap_expected else verdict), 'outcome:' + res.klass] + \
               ['rel:' + r for r in sorted(rels)] + (['zero-length-lines'] if case['nzero'] else []) + \
-              (['mode:no-binary'] if nobin else []) + (['zones-cut-to-measure'] if case.get('tailored_zones') else [])
+              (['mode:no-binary'] if nobin else []) + (['muted-ranges'] if case.get('nmuted') else []) + (['zones-cut-to-measure'] if case.get('tailored_zones') else [])
     sample = {'source': files['main.asm'], 'relations': case['relations'], 'model': detail['model']}
     return Outcome(findings, nt, classes, 1, sample=sample)
